@@ -125,7 +125,9 @@ Next ==
          prev0 == IF e.rowstart THEN <<>> ELSE prev
          f02   == C02Failed(e)
                   \cup {c \in {"C02.front_end"} : ~IsRef(e) /\ ~RatioZero(e) /\ ref # <<>> /\ ~SameOut(e.out, ref)}
-         f17   == IF ~IsRef(e) THEN {}
+         \* the laws of C17 are established on the rows of ci_wilson / ci_z_normal; the other entry points
+         \* (the alias `ci`, Stats::ci, ci_true, ...) inherit them by returning the same interval
+         f17   == IF ~IsRef(e) THEN {c \in {"C17.entry_points_agree"} : ~RatioZero(e) /\ ref # <<>> /\ ~SameOut(e.out, ref)}
                   ELSE IF e.grp = "row" THEN C17Row(e, rows0)
                   ELSE IF e.grp = "mult" THEN C17Mult(e, prev0)
                   ELSE IF e.grp = "levels" THEN C17Levels(e, prev0)
@@ -140,7 +142,8 @@ Next ==
                                          \cup (IF e.conf.kind # "two" /\ CritSign("one", e.li) < 0 THEN {"C02.negative_z"} ELSE {})
                                          \cup (IF e.conf.kind # "two" /\ CritSign("one", e.li) = 0 THEN {"C02.zero_z"} ELSE {})
                         ELSE {})
-                  \cup (IF ~IsRef(e) THEN {"C02.front_end", "C02.front_end." \o e.fe} ELSE {})
+                  \cup (IF ~IsRef(e) THEN {"C02.front_end", "C02.front_end." \o e.fe, "C17.entry_points_agree"} ELSE {})
+                  \cup (IF ~IsRef(e) /\ e.n > 100000 THEN {"C17.entry_points_agree.large_population"} ELSE {})
                   \cup (IF IsRef(e) /\ e.grp = "row" THEN C17RowClauses(e, rows0) ELSE {})
                   \cup (IF IsRef(e) /\ e.grp = "mult" /\ OkIv(e) /\ prev0 # <<>> THEN {"C17.shrinks_with_n"} ELSE {})
                   \cup (IF IsRef(e) /\ e.grp = "levels" /\ OkIv(e) /\ prev0 # <<>> THEN {"C17.wider_with_level"} ELSE {})
